@@ -1,11 +1,11 @@
 package main
 
 import (
-	"sync"
 	"fmt"
 	"go/types"
 	"strconv"
 	"strings"
+	"sync"
 
 	"golang.org/x/tools/go/ssa"
 )
@@ -149,6 +149,9 @@ func (o *Oblig) scriptCOI(lite bool) string {
 // of the relaxed query is only a candidate and must be confirmed by replay.
 func (o *Oblig) scriptOpt(withModel, relaxed bool) string {
 	r := o.Run
+	if r == nil {
+		return "; no solver query: " + o.NoSolve + "\n"
+	}
 	var b strings.Builder
 	if withModel {
 		b.WriteString("(set-option :produce-models true)\n")
@@ -377,6 +380,16 @@ func (w *World) axiomText(text string) string {
 				litText.WriteByte('\n')
 			}
 			all += " blen bat"
+		}
+	}
+	if containsSym(all, "tyclass") {
+		for id := 1; id <= len(w.TagNames); id++ {
+			// every tag is its own class, except array types with identical underlying types
+			c := id
+			if _, isArr := w.tagTypes()[id].Underlying().(*types.Array); isArr {
+				c = w.arrayClass(id)
+			}
+			fmt.Fprintf(&out, "(assert (= (tyclass %d) %d))\n", id, c)
 		}
 	}
 	if containsSym(all, "tagty") {
